@@ -22,7 +22,7 @@ from props.common import diff_run, account
 
 DRIVERS = ["mpi_algebra"]
 MODEL = "dist"
-MPIRUN = ["mpirun", "--allow-run-as-root", "--oversubscribe", "-n"]
+MPIRUN = ["mpirun", "--allow-run-as-root", "--oversubscribe", "--bind-to", "none", "--mca", "mpi_yield_when_idle", "1", "-n"]
 ASSUMPTIONS = [
     "MPI runtime (Open MPI 4.1): Allgather/Alltoall/Allreduce/point-to-point deliver what the model's pure functions say; "
     "progress, deadlock freedom and message arrival order are NOT modelled (the code uses no MPI_ANY_SOURCE/ANY_TAG/Waitany; "
